@@ -449,33 +449,31 @@ class Compiler:
 
     def _collect_var_decls(self, node, var_set: set):
         """Collect all var declarations in a node."""
-        if isinstance(node, VariableDeclaration):
-            for decl in node.declarations:
-                var_set.add(decl.id.name)
-        elif isinstance(node, FunctionDeclaration):
-            var_set.add(node.id.name)
-            # Don't recurse into function body
-        elif isinstance(node, BlockStatement):
-            for stmt in node.body:
-                self._collect_var_decls(stmt, var_set)
-        elif hasattr(node, "__dict__"):
-            for key, value in node.__dict__.items():
-                if isinstance(value, Node) and not isinstance(
-                    value,
-                    (FunctionDeclaration, FunctionExpression, ArrowFunctionExpression),
-                ):
-                    self._collect_var_decls(value, var_set)
-                elif isinstance(value, list):
-                    for item in value:
-                        if isinstance(item, Node) and not isinstance(
-                            item,
-                            (
-                                FunctionDeclaration,
-                                FunctionExpression,
-                                ArrowFunctionExpression,
-                            ),
-                        ):
-                            self._collect_var_decls(item, var_set)
+        function_types = (
+            FunctionDeclaration,
+            FunctionExpression,
+            ArrowFunctionExpression,
+        )
+        # Iterative walk: programs nest blocks, arrays and expressions deeply
+        work_stack = [node]
+        while work_stack:
+            current = work_stack.pop()
+            if isinstance(current, VariableDeclaration):
+                for decl in current.declarations:
+                    var_set.add(decl.id.name)
+                    if decl.init is not None:
+                        work_stack.append(decl.init)
+            elif isinstance(current, FunctionDeclaration):
+                var_set.add(current.id.name)
+                # Don't descend into the function body
+            elif isinstance(current, function_types):
+                pass
+            elif isinstance(current, Node):
+                for value in current.__dict__.values():
+                    if isinstance(value, Node):
+                        work_stack.append(value)
+                    elif isinstance(value, list):
+                        work_stack.extend(v for v in value if isinstance(v, Node))
 
     # ---- Statements ----
 
